@@ -15,6 +15,13 @@
 // goroutine of the case is finished, held at a yield point, or provably waiting for a
 // mutex (goroutine wait state, confirmed twice), and records that status vector.
 // Nothing in /repo is touched (no shim is needed: only public API is used).
+//
+// One more yield point exists when the tree carries patches/C09/hook-limit-state-obtained.patch:
+// verifhook.Yield("limit.state_obtained") in RateLimitState.TryToIncrement, right after
+// getLimiterState returned the (possibly just registered) limiter and before that limiter's
+// TryToIncrement takes its mutex and stores the window data.  A request held there has
+// published a fresh state (stored window size 0) that a collection can visit.  The family
+// "gap" is generated only when a probe request has reached that point (gapHook()).
 package main
 
 import (
@@ -27,6 +34,7 @@ import (
 	"sort"
 	"strconv"
 	"sync"
+	"sync/atomic"
 	"time"
 
 	"lunar/engine/config"
@@ -34,6 +42,7 @@ import (
 	"lunar/engine/services/remedies"
 	"lunar/engine/utils/limit"
 	"lunar/engine/utils/obfuscation"
+	"lunar/engine/verifhook"
 	"lunar/toolkit-core/logging"
 
 	"go.opentelemetry.io/otel/metric"
@@ -50,6 +59,7 @@ type OvReq struct {
 	Remedy  int               `json:"remedy"`
 	Headers map[string]string `json:"headers"`
 	ParkH   bool              `json:"park_in_hasher,omitempty"`
+	ParkG   bool              `json:"park_after_lookup,omitempty"` // at verifhook "limit.state_obtained"
 	ParkC   bool              `json:"park_in_clock,omitempty"`
 }
 
@@ -73,7 +83,7 @@ type OverlapCase struct {
 	Cols     [][]int  `json:"collections"` // per collection: clock readings (1-based) at which it is held
 	Ops      []OvOp   `json:"ops"`
 	// observed
-	Status   [][]int   `json:"status"`   // after every op, requests then collections: -1 not started, 0 waiting for a mutex, 1 held in the hasher, 2 held in a clock reading, 3 finished, -5 still running after the bounded wait
+	Status   [][]int   `json:"status"`   // after every op, requests then collections: -1 not started, 0 waiting for a mutex, 1 held in the hasher, 2 held in a clock reading, 3 finished, 4 held between getLimiterState and the limiter's TryToIncrement, -5 still running after the bounded wait
 	Verdicts []int     `json:"verdicts"` // per request: 0 NoOp, s>0 early response, -1 error, -2 panic, -9 unfinished
 	Counters [][]OvCnt `json:"counters"` // per collection: what the gauge callback observed
 	Reads    []int64   `json:"clock_readings"`
@@ -125,10 +135,11 @@ type othread struct {
 	started bool
 	done    bool
 	parkH   bool // still to be held in the hasher
+	parkG   bool // still to be held at the yield point after getLimiterState
 	parkC   bool // still to be held in its clock reading
 	parks   map[int]bool
 	reads   int
-	at      int // 0 running / waiting, 1 held in the hasher, 2 held in a clock reading
+	at      int // 0 running / waiting, 1 held in the hasher, 2 held in a clock reading, 4 held after getLimiterState
 	wake    chan struct{}
 	stuck   bool // did not settle within the bounded wait
 	// results
@@ -200,6 +211,53 @@ func (x *orunner) HashBytes(raw []byte) string {
 	return string(raw)
 }
 
+// verifhook.Yield: the point after getLimiterState (the goroutine holds no mutex)
+const gapPoint = "limit.state_obtained"
+
+var (
+	curRunner atomic.Pointer[orunner]
+	gapSeen   atomic.Int64
+)
+
+func yieldHandler(point string) {
+	if point != gapPoint {
+		return
+	}
+	gapSeen.Add(1)
+	x := curRunner.Load()
+	if x == nil {
+		return
+	}
+	x.mu.Lock()
+	var wake chan struct{}
+	if th := x.byGid[curGID()]; th != nil && !th.isCol && th.parkG {
+		th.parkG, th.at, wake = false, 4, th.wake
+	}
+	x.mu.Unlock()
+	if wake != nil {
+		<-wake
+	}
+}
+
+var gapHookOnce struct {
+	sync.Once
+	present bool
+}
+
+// does the tree call verifhook.Yield("limit.state_obtained")?  One request on a scratch plugin.
+func gapHook() bool {
+	gapHookOnce.Do(func() {
+		verifhook.SetYield(yieldHandler)
+		before := gapSeen.Load()
+		k := &OverlapCase{Remedies: []Remedy{{Name: "probe", Allowed: 1, WindowS: 1}}, Reqs: []OvReq{{Headers: map[string]string{}}}}
+		x := newORunner(k)
+		x.do(OvOp{K: "start", I: 0})
+		x.close()
+		gapHookOnce.present = gapSeen.Load() > before
+	})
+	return gapHookOnce.present
+}
+
 type captureMeter struct {
 	noop.Meter
 	cbs map[string][]metric.Int64Callback
@@ -226,6 +284,8 @@ func (o *captureObserver) Observe(v int64, opts ...metric.ObserveOption) {
 
 func newORunner(k *OverlapCase) *orunner {
 	x := &orunner{now: k.Base, byGid: map[int64]*othread{}, k: k}
+	verifhook.SetYield(yieldHandler)
+	curRunner.Store(x)
 	st := limit.NewRateLimitState(x, logging.ContextLogger{})
 	meter := &captureMeter{cbs: map[string][]metric.Int64Callback{}}
 	p, err := remedies.NewStrategyBasedThrottlingPlugin(context.Background(), x, meter, st,
@@ -241,7 +301,7 @@ func newORunner(k *OverlapCase) *orunner {
 		x.srs = append(x.srs, remedyConfig(r))
 	}
 	for _, q := range k.Reqs {
-		x.reqs = append(x.reqs, &othread{parkH: q.ParkH, parkC: q.ParkC, wake: make(chan struct{}, 1),
+		x.reqs = append(x.reqs, &othread{parkH: q.ParkH, parkG: q.ParkG, parkC: q.ParkC, wake: make(chan struct{}, 1),
 			code: -9, read: -1})
 	}
 	for _, ps := range k.Cols {
@@ -530,7 +590,7 @@ func coqOverlap(k *OverlapCase) string {
 			keyIdx[term] = i
 			keyTerms = append(keyTerms, term)
 		}
-		return "mk_oreq " + c.Nat(i) + " " + c.B(r.ParkH) + " " + c.B(r.ParkC)
+		return "mk_oreq " + c.Nat(i) + " " + c.B(r.ParkH) + " " + c.B(r.ParkG) + " " + c.B(r.ParkC)
 	})
 	cols := c.MapList(k.Cols, func(ps []int) string {
 		return "(" + c.MapList(ps, func(n int) string { return c.Nat(n) }) + " : list nat)"
@@ -553,7 +613,7 @@ func coqOverlap(k *OverlapCase) string {
 		v := new(big.Int)
 		for i := len(s) - 1; i >= 0; i-- {
 			d := int64(6)
-			if s[i] >= -1 && s[i] <= 3 {
+			if s[i] >= -1 && s[i] <= 4 {
 				d = int64(s[i] + 1)
 			}
 			v.Lsh(v, 3).Add(v, big.NewInt(d))
@@ -608,7 +668,7 @@ func monitorOverlap(k *OverlapCase) []c.Hit {
 }
 
 func runOverlapCase(o *c.Out, k *OverlapCase) {
-	blocked, parkedCol := false, false
+	blocked, parkedCol, gapped := false, false, false
 	nr := len(k.Reqs)
 	for _, st := range k.Status {
 		for i, s := range st {
@@ -617,6 +677,9 @@ func runOverlapCase(o *c.Out, k *OverlapCase) {
 			}
 			if i >= nr && s == 2 {
 				parkedCol = true
+			}
+			if i < nr && s == 4 {
+				gapped = true
 			}
 		}
 	}
@@ -628,6 +691,9 @@ func runOverlapCase(o *c.Out, k *OverlapCase) {
 	}
 	if parkedCol {
 		o.Count("overlap:collection-held-between-limiters")
+	}
+	if gapped {
+		o.Count("overlap:request-held-after-registering-its-limiter")
 	}
 	o.MonitorChecked(1)
 	for _, h := range monitorOverlap(k) {
